@@ -153,17 +153,18 @@ def d4(cx):
 @rule("D5", ["C14"], "the sorted class list is used in order: API sources, cdefs, headers < class sources < user sources on every context")
 def d5(cx):
     m = cx.m
+    # evaluated: one API source per class in the order given, each followed by the class's extra sources
+    from ..peval import Builtin as _B, Interp as _I, Obj as _O
     f = m.func("context::sources_from_classes")
-    loops = [l for l in f.body if isinstance(l, ast.For)]
-    cx.need(len(loops) == 1, "sources_from_classes: single loop expected")
-    lp = loops[0]
-    ok = norm(lp.iter) == f.args.args[0].arg and f"sources.append({norm(lp.target)}._gen_c_api())" in norm(lp)
-    cx.check(ok, lp, construct=short(lp, 120), detail="one API source per class, in the given order", bad_detail="class API sources are not emitted once per class in list order")
-    r = [x for x in own_nodes(m.func("context::sort_classes")) if isinstance(x, ast.Return)]
-    cx.need(len(r) == 1 and isinstance(r[0].value, ast.ListComp), "sort_classes: return list comprehension expected")
-    lc = r[0].value
-    ok = norm(lc.generators[0].iter) == "classes" and norm(lc.elt) == f"class_by_name[{norm(lc.generators[0].target)}]"
-    cx.check(ok, r[0], construct=short(r[0], 120), detail="the returned list follows the topological order", bad_detail="sort_classes does not return classes in the sorted order", sub="return")
+    I = _I(m)
+    c1 = _O("class", {"__name__": "A", "_gen_c_api": _B("api", lambda: "apiA"), "_extra_c_sources": ["xA1", "xA2"]}, name="A")
+    c2 = _O("class", {"__name__": "B", "_gen_c_api": _B("api", lambda: "apiB")}, name="B")
+    c3 = _O("class", {"__name__": "C", "_gen_c_api": _B("api", lambda: "apiC"), "_extra_c_sources": []}, name="C")
+    res = I.explore(lambda: I.call(I.global_lookup("context", "sources_from_classes"), [[c2, c1, c3]], {}), max_paths=4)
+    cx.recog(len(res) == 1 and res[0]["exc"] is None, f, f"sources_from_classes: evaluation did not end in one normal path ({res[0]['exc'] if res else ''})")
+    got = list(res[0]["result"])
+    cx.check(got == ["apiB", "apiA", "xA1", "xA2", "apiC"], f, construct=f"sources_from_classes([B, A, C]) -> {got}", detail="one API source per class, in the given order, each followed by its extra sources", bad_detail="class API sources are not emitted once per class in list order (expected ['apiB', 'apiA', 'xA1', 'xA2', 'apiC'])")
+    # (that sort_classes returns the classes in dependency order is decided by rule DG)
     for spec, hdr in (("context_cpu::ContextCpu", "headers"), ("context_cupy::ContextCupy", "headers"), ("context_pyopencl::ContextPyopencl", "headers")):
         cls = m.cls(spec)
         ms = m.methods(cls)
